@@ -31,4 +31,5 @@ CHECK = {'title': 'Stored fan data round-trips and is isolated per fan and per k
                'fault enumeration over a fixed list of histories (70 quick / 518 thorough); the first load of an undecodable entry returning a nil error '
                'is recorded as an observation, not judged',
  'runs': [{'pkg': 'internal/persistence', 'test': 'TestVX_C14a', 'shards_quick': 16, 'shards_thorough': 16},
-          {'pkg': 'internal/persistence', 'test': 'TestVX_C14b', 'shards_quick': 16, 'shards_thorough': 16}]}
+          {'pkg': 'internal/persistence', 'test': 'TestVX_C14b', 'shards_quick': 16, 'shards_thorough': 16},
+          {'pkg': 'internal/persistence', 'test': 'TestVX_C14conc', 'shards_quick': 4, 'shards_thorough': 4}]}
